@@ -1,4 +1,4 @@
-use std::path::{Path, PathBuf};
+use std::path::{Component, Path, PathBuf};
 
 use bstr::{BStr, ByteSlice};
 
@@ -44,5 +44,24 @@ pub(crate) fn match_path_require_call(call: &FunctionCall) -> Option<PathBuf> {
         }
         _ => None,
     }
-    .map(utils::normalize_path_with_current_dir)
+    .map(normalize_require_literal)
+}
+
+/// Normalizes the path written in a require call. When the path is neither relative (`./`,
+/// `../`) nor absolute, its first component is the name of a source (or alias): that name is
+/// kept and only what follows is normalized, so that `pkg/../module` does not lose `pkg`.
+fn normalize_require_literal(path: &Path) -> PathBuf {
+    let mut components = path.components();
+
+    if let Some(Component::Normal(source_name)) = components.next() {
+        let tail = utils::normalize_path(components.as_path());
+
+        if tail == Path::new("") || tail == Path::new(".") {
+            PathBuf::from(source_name)
+        } else {
+            Path::new(source_name).join(tail)
+        }
+    } else {
+        utils::normalize_path_with_current_dir(path)
+    }
 }
